@@ -14,3 +14,9 @@ import contracts.c10_framing as _F
 P = "C11"
 unit(P, target=_B.SW + "SoftwareSwitchBase._rx_flow_mod", name="a_flow_mod_naming_a_buffer_releases_it_even_without_actions")(_B.flow_mod_releases_its_buffer)
 unit(P, target=_F.OF01 + "Connection.read", name="every_packet_in_of_a_burst_is_handled_once", timeout_s=600)(_F.controller_read_arbitrary_bytes)
+
+# (round 5) the packet-in the learning switch decides on must carry the WHOLE frame when the switch could not buffer it
+# (seeded change C11_9 truncated unbuffered packet-ins: the flood / flow-mod then resent an incomplete frame), and a buffer
+# named together with an EMPTY action list ('drop') is still released (seeded change C11_8)
+unit(P, target=_B.SW + "SoftwareSwitchBase.send_packet_in", name="an_unbuffered_packet_in_carries_the_whole_frame")(_B.packet_in_contents)
+unit(P, target=_B.SW + "SoftwareSwitchBase._process_actions_for_packet_from_buffer", name="a_buffer_used_with_any_action_list_is_released")(_B.use_buffer)
